@@ -719,7 +719,7 @@ func (a *a23) recursionConsumes(r *Run) {
 		if isCallTo(cc, "(*bufio.Reader).ReadByte") {
 			return true
 		}
-		if sc := staticCallee(cc); sc != nil && inPkg[sc] && (sc.Name() == "readByte" || sc.Name() == "readNBytes") {
+		if sc := staticCallee(cc); sc != nil && inPkg[sc] && (canonFn(sc) == "readByte" || canonFn(sc) == "readNBytes") {
 			return true
 		}
 		return false
@@ -798,7 +798,7 @@ func isParamValue(v ssa.Value) bool {
 func (a *a23) lengthKnown(f *ssa.Function, at ssa.Instruction, x ssa.Value, k int64) bool {
 	switch c := x.(type) {
 	case *ssa.Call:
-		if sc := staticCallee(&c.Call); sc != nil && sc.Name() == "readNBytes" && len(c.Call.Args) == 2 {
+		if sc := staticCallee(&c.Call); sc != nil && canonFn(sc) == "readNBytes" && len(c.Call.Args) == 2 {
 			return minConst(c.Call.Args[1], 0) > k
 		}
 	case *ssa.Extract:
